@@ -1,0 +1,22 @@
+//go:build verif
+
+// Constructors used only by the deterministic-simulation harness (build tag verif).
+package gnmi
+
+import (
+	"context"
+
+	topoapi "github.com/onosproject/onos-api/go/onos/topo"
+	baseClient "github.com/openconfig/gnmi/client"
+	gclient "github.com/openconfig/gnmi/client/gnmi"
+	"google.golang.org/grpc"
+)
+
+// NewConnForVerif builds the repository's own conn/client over a caller-supplied ClientConn.
+func NewConnForVerif(targetID topoapi.ID, cc *grpc.ClientConn) (Conn, error) {
+	cl, err := gclient.NewFromConn(context.Background(), cc, baseClient.Destination{})
+	if err != nil {
+		return nil, err
+	}
+	return newConn(targetID, &client{client: cl}), nil
+}
